@@ -6,8 +6,8 @@
    walker [walk]), ARBITRARY name check and file lookup [find] (every file map, every load path) and
    arbitrary constants - hence also for the concrete instance of Model/ReqEmbedInst.v, for which the
    second group gives the fuel bound. *)
-From PV Require Import Base.Prelude Generated.T_files_build Model.ReqEmbed Model.ReqEmbedInst
-  Proofs.ReqEmbedProofs Proofs.ReqEmbedInstProofs.
+From PV Require Import Base.Prelude Spec.LuaLex Instances.HoldsC01 Generated.T_files_build Model.ReqEmbed
+  Model.ReqEmbedInst Proofs.ReqEmbedProofs Proofs.ReqEmbedInstProofs Proofs.SpecLexChunk Proofs.ReqEmbedSpecTokens.
 
 Section Abstract.
 Variable P : Type.
@@ -238,6 +238,38 @@ Theorem C14_tokens_partial_now : forall (T : Type) (sigt : bytes -> option (list
                      end).
 Proof. exact build_code_tokens_now. Qed.
 
+(* the reference tokenizer of Spec/LuaLex.v HAS the chunking property (Proofs/SpecLexChunk.v):
+   [sig_views src] = its significant tokens without positions.  A text that ends in a line feed and
+   lexes, followed by a text that lexes, lexes to the concatenation; a final line feed adds nothing *)
+Theorem C14_reference_chunking : forall a b ta tb,
+  (a = [] \/ last a 0 = 10) -> sig_views a = Some ta -> sig_views b = Some tb ->
+  sig_views (a ++ b) = Some (ta ++ tb).
+Proof. exact sig_views_app. Qed.
+
+Theorem C14_reference_final_lf : forall a ta, sig_views a = Some ta -> sig_views (a ++ [10]) = Some ta.
+Proof. exact sig_views_final_lf. Qed.
+
+(* hence the token-level statement for the concrete stack against the reference tokenizer, with the
+   constants' side conditions computed: the only remaining hypothesis is the token-faithful echo of
+   the lexer model (C06) - and, per package, that its header line and echoed code are in the dialect *)
+Theorem C14_tokens_spec_partial :
+  (forall ls q, from_lines ls = Ok q -> sig_views (concat (echo_lines q)) = sig_views (concat ls)) ->
+  forall cwd fs lua_path fuel main_path main_content out,
+  build_code_now cwd fs lua_path fuel main_path main_content = Ok out ->
+  exists r pk, build_lua_now cwd fs lua_path fuel main_path main_content = Ok (r, pk) /\
+    let toks := toks stok sig_views in
+    let lexes := lexes stok sig_views in
+    (Forall (fun e => lexes (header_line_now (fst e)) /\ lexes (concat (echo_lines (snd e)))) pk ->
+     lexes main_content ->
+     sig_views out = Some match pk with
+                          | [] => toks main_content
+                          | _ => concat (map toks require_lua_preamble_package)
+                                 ++ concat (map (fun e => toks (header_line_now (fst e))
+                                                          ++ toks (concat (echo_lines (snd e))) ++ toks end_line_now) pk)
+                                 ++ concat (map toks require_lua_preamble_require) ++ toks main_content
+                          end).
+Proof. exact build_code_tokens_spec. Qed.
+
 (* the stripping step of the concrete model, before the text is lexed again: whatever statements of
    the tree are taken for game loop functions and wherever their token ranges lie, the significant
    tokens that remain are a subsequence of the file's significant tokens - stripping removes, it never
@@ -261,6 +293,9 @@ Print Assumptions C14_terminates_now.
 Print Assumptions C14_dfs_exact.
 Print Assumptions C14_tokens_partial_now.
 Print Assumptions C14_strip_only_removes.
+Print Assumptions C14_reference_chunking.
+Print Assumptions C14_reference_final_lf.
+Print Assumptions C14_tokens_spec_partial.
 
 (* non-vacuity: a main program and two packages that require each other (a cycle), one game loop
    function each, one package without a final newline; the build succeeds, embeds each package once
